@@ -1857,6 +1857,82 @@ func (g *gen) sideEffectStmt() string {
 	return strings.TrimSuffix(sb.String(), "\n")
 }
 
+// Argument counts around every limit of the call path (0..6 fixed parameters, variadics with 0..6 extra arguments)
+// for callees that READ or WRITE an outer variable, reached through a pure-looking wrapper (possibly two deep) that is
+// called again with EQUAL arguments after the outer state changed: nothing on the way may remember a stale result.
+func (g *gen) outerStateStmt() string {
+	g.feat("outer-state-through-wrapper")
+	var sb strings.Builder
+	w := func(f string, a ...any) { sb.WriteString(fmt.Sprintf(f, a...) + "\n") }
+	x, h, wr := g.fresh("ox"), g.fresh("oh"), g.fresh("ow")
+	np := g.n(7) // 0..6
+	variadic := g.pct(40)
+	names := make([]string, np)
+	for i := range names {
+		names[i] = fmt.Sprintf("a%d", i+1)
+	}
+	sig := strings.Join(names, ", ")
+	sum := strings.Join(append(append([]string{}, names...), "0"), " + ")
+	if variadic {
+		if np > 0 {
+			sig += ", "
+		}
+		sig += ".."
+		sum += " + len(..)"
+		g.feat("outer-state-variadic")
+	}
+	writes := g.pct(45)
+	w("%s = %d", x, 1+g.n(5))
+	var body string
+	if writes {
+		g.feat("outer-state-write")
+		body = g.pick(fmt.Sprintf("%s = %s + 1\n%s + %s", x, x, sum, x), fmt.Sprintf("%s++\n%s", x, sum), fmt.Sprintf("%s = %s + %s\n%s", x, x, sum, x))
+	} else {
+		body = g.pick(sum+" + "+x, "["+sum+", "+x+"]", "if "+x+" > 5 {"+sum+" * 100} else {"+sum+" + "+x+"}")
+	}
+	if g.pct(30) {
+		body = "println(\"in " + h + "\")\n" + body
+	}
+	if g.pct(60) {
+		w("%s = func(%s) {%s}", h, sig, body)
+	} else {
+		w("func %s(%s) {%s}", h, sig, body)
+	}
+	// the wrapper passes its own argument first, constants for the rest; variadic helpers get 0..6 extras
+	extras := 0
+	if variadic {
+		extras = g.n(7)
+	}
+	var args []string
+	for i := 0; i < np+extras; i++ {
+		if i == 0 {
+			args = append(args, "n")
+		} else {
+			args = append(args, fmt.Sprint(g.n(4)))
+		}
+	}
+	call := h + "(" + strings.Join(args, ", ") + ")"
+	switch g.n(4) {
+	case 0:
+		w("%s = func(n) {%s}", wr, call)
+	case 1:
+		w("%s = func(n) {r = %s\n[r, n]}", wr, call)
+	case 2: // two wrappers deep
+		mid := g.fresh("om")
+		w("%s = func(n) {%s}", mid, call)
+		w("%s = func(n) {%s(n) }", wr, mid)
+	default: // the helper is called several times by the wrapper (a loop)
+		w("%s = func(n) {t = 0\nfor i = 3 {t = %s}\nt}", wr, call)
+	}
+	k := fmt.Sprint(g.n(4))
+	w("println(%s(%s))", wr, k)
+	w("println(%s(%s), %s)", wr, k, x)
+	w("%s = %d", x, 10+g.n(10))
+	w("println(%s(%s))", wr, k)
+	w("println(%s(%s), %s(%s), %s)", wr, k, wr, fmt.Sprint(5+g.n(3)), x)
+	return strings.TrimSuffix(sb.String(), "\n")
+}
+
 func (g *gen) edgeProgram() string {
 	var parts []string
 	n := 1 + g.n(3)
@@ -1872,8 +1948,10 @@ func (g *gen) edgeProgram() string {
 			parts = append(parts, g.sideEffectStmt())
 		case k < 72:
 			parts = append(parts, g.unicodeStmt())
-		case k < 88:
+		case k < 82:
 			parts = append(parts, g.typedTwinStmt())
+		case k < 92:
+			parts = append(parts, g.outerStateStmt())
 		default:
 			parts = append(parts, g.manyArgsStmt())
 		}
@@ -2100,6 +2178,9 @@ func (g *gen) stmt(nest int, ret ty) string {
 				return g.unicodeStmt()
 			case 5:
 				return g.typedTwinStmt()
+			}
+			if g.pct(50) {
+				return g.outerStateStmt()
 			}
 			return g.variadicNestStmt()
 		}
